@@ -89,7 +89,7 @@ def classic_2sum(a: fp.Real, b: fp.Real):
 
     s = a + b
     aa = s - b
-    bb = s - a
+    bb = s - aa
     ea = a - aa
     eb = b - bb
     t = ea + eb
@@ -161,8 +161,8 @@ def classic_2mul(a: fp.Real, b: fp.Real):
     - the rounding mode is round-nearest.
     """
 
-    with fp.INTEGER:
-        p = core.max_p()
+    p = core.max_p()
+    with fp.REAL:
         s = fp.ceil(p / 2)
 
     ah, al = veltkamp_split(a, s)
